@@ -138,6 +138,9 @@ func runHistoryRaw(t *testing.T, h *History) {
 			if op.SetPath != "" {
 				req.URL.Path, req.URL.RawPath = op.SetPath, ""
 			}
+			if op.Host != "" {
+				req.Host = op.Host
+			}
 			for _, p := range op.Hdr {
 				req.Header.Add(p[0], p[1])
 			}
